@@ -658,6 +658,58 @@ def own_port_check(run):
     return None
 
 
+def follow_check(sc, run):
+    """a port (also one whose driver failed earlier and has recovered) keeps following its expression: every evaluation whose
+    result differs from the port's current last value asks the driver to write it; checked on the log of one run.  The result
+    is recomputed here from the last values at the pass that requested the evaluation (`$x` / `ADD($x, $y)` only)."""
+    exprs = {p['id']: p.get('expr') for p in all_specs(sc)}
+    lasts = {p: v[0] for p, v in (run.get('init') or {}).items()}
+    queue = {}
+    pushes = []
+    log = run.get('log') or []
+
+    def get(snap, x):
+        if x not in snap:
+            return 'fail'                      # unknown or disabled port
+        return snap[x]
+
+    def value_of(e, snap):
+        if e[0] == 'port':
+            return get(snap, e[1])
+        a, b = get(snap, e[1]), get(snap, e[2])
+        for v in (a, b):
+            if v == 'fail' or v is None:
+                return v                       # the first failing argument decides
+        return canon(a + b)
+
+    for i, it in enumerate(log):
+        k = it[1]
+        if k == 'pass':
+            pushes = []
+        elif k == 'push':
+            pushes.append(it[2])
+        elif k in ('pass_end', 'restore_end'):
+            vals = it[2]
+            lasts.update({p: v[0] for p, v in vals.items()})
+            if k == 'pass_end':
+                snap = {p: v[0] for p, v in vals.items() if v[2]}
+                for p in pushes:
+                    queue.setdefault(p, []).append(snap)
+                pushes = []
+        elif k == 'eval':
+            p = it[2]
+            if not queue.get(p) or not exprs.get(p):
+                continue
+            want = value_of(exprs[p], queue[p].pop(0))
+            nxt = log[i + 1] if i + 1 < len(log) else None
+            wrote = nxt is not None and nxt[1] == 'evalwrite' and nxt[2] == p
+            expect = want != 'fail' and want != lasts.get(p)
+            if wrote != expect or (wrote and nxt[3] != want):
+                return {'rule': 'follow-expression', 'port': p, 'vtime_ms': it[0], 'expression_value': want,
+                        'last_value': lasts.get(p), 'write_requested': nxt[3] if wrote else None}
+    return None
+
+
 def pair(env, sc):
     H = healthy_ids(sc)
     fr = env.run(sc)
@@ -682,7 +734,7 @@ def pair(env, sc):
     if d is not None:
         res['diff'] = {'observable': d[0], 'detail': d[1]}
     else:
-        own = own_port_check(fr) or own_port_check(rr)
+        own = own_port_check(fr) or own_port_check(rr) or follow_check(sc, fr) or follow_check(sc, rr)
         if own is not None:
             res['diff'] = {'observable': 'own:' + own['rule'], 'detail': own}
     return res
